@@ -23,8 +23,17 @@ namespace pika::util::detail {
             if (destroy) vtable::get<T>(storage).~T();
 
             void* buffer = vtable::allocate<T>(storage, storage_size);
-            // NOLINTNEXTLINE(bugprone-multi-level-implicit-pointer-conversion)
-            return ::new (buffer) T(vtable::get<T>(src));
+            try
+            {
+                // NOLINTNEXTLINE(bugprone-multi-level-implicit-pointer-conversion)
+                return ::new (buffer) T(vtable::get<T>(src));
+            }
+            catch (...)
+            {
+                // do not leak a heap buffer allocated above (no-op for caller-owned storage)
+                vtable::_deallocate<T>(buffer, storage_size, /*destroy*/ false);
+                throw;
+            }
         }
         void* (*copy)(void*, std::size_t, void const*, bool);
 
